@@ -161,10 +161,6 @@ func checkAxioms(c AxiomCase) error {
 	if len(c.Vals) != len(keys) {
 		return fmt.Errorf("bad case: %d keys, %d values", len(keys), len(c.Vals))
 	}
-	if key, in := inKnownClass(modeOf(c.Sort), keys, c.Layout); in && known(key) {
-		pbt.Exclude("oracle skipped a case of known finding " + key)
-		return nil
-	}
 	return axioms(c)
 }
 
@@ -239,6 +235,9 @@ func classifyAxioms(c AxiomCase) (bool, []string) {
 	keys := pbt.Strs(c.Keys)
 	ties := tieClasses(keys, c.Vals, c.Layout)
 	labels := []string{"sort:" + c.Sort, "kind:" + classifyKeys(keys, c.Layout)}
+	if key, in := inKnownClass(modeOf(c.Sort), keys, c.Layout); in {
+		labels = append(labels, "class:"+key)
+	}
 	if c.Pool != "" {
 		labels = append(labels, "pool:"+c.Pool)
 	}
@@ -302,6 +301,16 @@ func axiomPools() []pool {
 	plain := []string{"text", "text:desc", "numeric", "numeric:reverse", "value", "value:asc", "nv:value", "nv:name", "nv:smart"}
 	ctx := []string{"contextual", "contextual:desc"}
 	dt := []string{"date", "date:desc"}
+	if pbt.Thorough() {
+		plain = []string{"nv:value", "nv:name", "nv:smart"}
+		for _, m := range []string{"text", "numeric", "value"} {
+			for _, mod := range []string{"", ":asc", ":desc", ":reverse"} {
+				plain = append(plain, m+mod)
+			}
+		}
+		ctx = []string{"contextual", "contextual:asc", "contextual:desc", "contextual:reverse"}
+		dt = []string{"date", "date:asc", "date:desc", "date:reverse"}
+	}
 	var ps []pool
 	mix := append(append(append([]string{}, oddText...), "1", "1.0", "10", "2", "9", "1x", "mon", "Jan", "2022-01-02", "nan"), plainWords[:4]...)
 	ps = append(ps, pool{"text+odd", mix, "", append(append([]string{}, plain...), ctxIfSearched(true)...)})
@@ -344,8 +353,8 @@ func ctxIfSearched(isMixture bool) []string {
 
 var axiomSpec = pbt.Spec[AxiomCase]{
 	Property: prop, Name: "axioms",
-	Rule: "bounded-exhaustive: fixed key pools (text incl. empty/non-UTF-8/NUL, number spellings, things a float parser may or may not read, weekday and month names with aliases and case variants, plain words, 14 fixed-width date layouts incl. equal instants in different zones; mixture pools while not listed as known findings) x sort names (text numeric contextual date value with modifiers, NV* sorters); one case = (sort, pool, first element a), checked for every b and c of the pool: exactly one of less(a,b)/less(b,a) from fresh sorters, same answer again, same answer from a sorter that has already compared other keys, transitivity over (a,b,c). Values are spread over 3 totals so that value ties occur. Non-trivial: pool >=3 keys holding a tie class",
-	Check:  checkAxioms, Classify: classifyAxioms,
+	Rule:  "bounded-exhaustive: fixed key pools (text incl. empty/non-UTF-8/NUL, number spellings, things a float parser may or may not read, weekday and month names with aliases and case variants, plain words, 14 fixed-width date layouts incl. equal instants in different zones; mixture pools while not listed as known findings) x sort names (text numeric contextual date value with modifiers, NV* sorters); one case = (sort, pool, first element a), checked for every b and c of the pool: exactly one of less(a,b)/less(b,a) from fresh sorters, same answer again, same answer from a sorter that has already compared other keys, transitivity over (a,b,c). Values are spread over 3 totals so that value ties occur. Non-trivial: pool >=3 keys holding a tie class",
+	Check: checkAxioms, Classify: classifyAxioms,
 }
 
 func TestAxioms(t *testing.T) {
@@ -391,8 +400,8 @@ func genTriple(t *rapid.T) AxiomCase {
 
 var tripleSpec = pbt.Spec[AxiomCase]{
 	Property: prop, Name: "triple",
-	Rule: "generated key sets of 2..7 keys (kind per mode: any mixture for text/numeric/value; for contextual: all weekdays | all months | no calendar name; for date: one fixed-width layout | all weekdays | all months | plain words; mixtures too while not listed as known findings) x values -1..2 x sort name; all pairs and triples checked for the comparator axioms as in `axioms`. Non-trivial: >=3 keys holding a tie class",
-	Budget: pbt.Budget{Quick: 60000, Thorough: 1500000},
+	Rule:   "generated key sets of 2..7 keys (kind per mode: any mixture for text/numeric/value; for contextual: all weekdays | all months | no calendar name; for date: one fixed-width layout | all weekdays | all months | plain words; mixtures too while not listed as known findings) x values -1..2 x sort name; all pairs and triples checked for the comparator axioms as in `axioms`. Non-trivial: >=3 keys holding a tie class",
+	Budget: pbt.Budget{Quick: 16000, Thorough: 200000},
 	Gen:    genTriple, Check: checkAxioms, Classify: classifyAxioms,
 }
 
@@ -406,7 +415,7 @@ type PermCase struct {
 	Incs   [][]int64 // increments sampled for each key (>=1 each)
 	Perms  [][]int   // arrival orders: permutations of the flattened sample list
 	TopN   int
-	Layout string // the date layout all keys were rendered in ("" if none)
+	Layout string   // the date layout all keys were rendered in ("" if none)
 	Obs    *pbt.Obs `json:"-"`
 }
 
@@ -495,10 +504,6 @@ func checkPerm(c PermCase) error {
 	}
 	keys := pbt.Strs(c.Keys)
 	mode := modeOf(c.Sort)
-	if key, in := inKnownClass(mode, keys, c.Layout); in && known(key) {
-		pbt.Exclude("oracle skipped a case of known finding " + key)
-		return nil
-	}
 	totals := c.totals()
 	smp := c.samples()
 	n := len(keys)
@@ -645,7 +650,16 @@ func checkPerm(c PermCase) error {
 			for _, x := range perm {
 				acc.Sample(keys[smp[x].key])
 			}
-			for rep := 0; rep < 2; rep++ {
+			for rep := 0; rep < 3; rep++ {
+				if rep == 2 {
+					// the same order through a sort expression that yields the group key
+					if strings.Contains(strings.Join(keys, ""), "\x00") {
+						break // {0} of a key holding the array separator is its first part only
+					}
+					if err := acc.SetSort("{0}"); err != nil {
+						return fmt.Errorf("harness: %v", err)
+					}
+				}
 				ns, _ := nameSorter(c.Sort)
 				groups := acc.Groups(ns)
 				g := make([]string, len(groups))
@@ -716,6 +730,9 @@ func classifyPerm(c PermCase) (bool, []string) {
 	labels := []string{"mode:" + mode, "modifier:" + mod, "kind:" + kind, mode + "/" + kind}
 	labels = append(labels, ties...)
 	labels = append(labels, c.Obs.All()...)
+	if key, in := inKnownClass(mode, keys, c.Layout); in {
+		labels = append(labels, "class:"+key)
+	}
 	if c.Layout != "" {
 		labels = append(labels, "layout:"+c.Layout)
 	}
@@ -786,8 +803,8 @@ func genPerm(t *rapid.T) PermCase {
 
 var permSpec = pbt.Spec[PermCase]{
 	Property: prop, Name: "perm",
-	Rule: "key set of 2..28 distinct keys (kind per mode as in `triple`) x 1..3 increments in -2..3 per key (totals tie often) x 2..4 arrival orders (permutations of the sample list) x sort name with modifier; every arrival order must give ONE sequence through sorting.Sort, sorting.SortBy, the bare name sorter, one sorter reused over three growing renders, MatchCounter.ItemsSortedBy (twice, + top-N = head of the full order), TableAggregator.OrderedRows/OrderedColumns (twice), AccumulatingGroup.Groups (twice); the sequence must not contradict the documented meaning of the mode (partial model); :reverse/:desc/:asc must be the exact reverse / the default. Non-trivial: >=5 keys, >=2 arrival orders that differ, >=1 tie class (equal totals, equal magnitudes in different spellings, alias or case-variant names, equal instants, prefix/case-variant text)",
-	Budget: pbt.Budget{Quick: 100000, Thorough: 2400000},
+	Rule:   "key set of 2..28 distinct keys (kind per mode as in `triple`) x 1..3 increments in -2..3 per key (totals tie often) x 2..4 arrival orders (permutations of the sample list) x sort name with modifier; every arrival order must give ONE sequence through sorting.Sort, sorting.SortBy, the bare name sorter, one sorter reused over three growing renders, MatchCounter.ItemsSortedBy (twice, + top-N = head of the full order), TableAggregator.OrderedRows/OrderedColumns (twice), AccumulatingGroup.Groups (twice); the sequence must not contradict the documented meaning of the mode (partial model); :reverse/:desc/:asc must be the exact reverse / the default. Non-trivial: >=5 keys, >=2 arrival orders that differ, >=1 tie class (equal totals, equal magnitudes in different spellings, alias or case-variant names, equal instants, prefix/case-variant text)",
+	Budget: pbt.Budget{Quick: 40000, Thorough: 500000},
 	Gen:    genPerm, Check: checkPerm, Classify: classifyPerm,
 }
 
@@ -905,10 +922,6 @@ func checkCli(c CliCase) error {
 			}
 		}
 	}
-	if key, in := inKnownClass(modeOf(c.Sort), keys, c.Layout); in && known(key) {
-		pbt.Exclude("oracle skipped a case of known finding " + key)
-		return nil
-	}
 	totals := pc.totals()
 	smp := pc.samples()
 	files := c.Files
@@ -1001,6 +1014,9 @@ func classifyCli(c CliCase) (bool, []string) {
 	labels := []string{"cmd:" + c.Cmd, "mode:" + mode, "modifier:" + mod, "kind:" + classifyKeys(keys, c.Layout), fmt.Sprintf("files:%d", c.Files)}
 	labels = append(labels, ties...)
 	labels = append(labels, c.Obs.All()...)
+	if key, in := inKnownClass(mode, keys, c.Layout); in {
+		labels = append(labels, "class:"+key)
+	}
 	return len(keys) >= 5 && len(c.Perms) >= 2 && permsDiffer(c.Perms) && len(ties) > 0, labels
 }
 
@@ -1048,10 +1064,10 @@ func genCli(t *rapid.T) CliCase {
 
 var cliSpec = pbt.Spec[CliCase]{
 	Property: prop, Name: "cli",
-	Rule: "`rare histo --snapshot --sort S` and `rare table --snapshot --sort-rows S --sort-cols S` on 1..3 files holding the sample lines of 2..12 printable-ASCII keys (kinds per mode as in `perm`) in 2..3 arrival orders; displayed rows (and columns) must equal the library order of the same data in every run, and the model of the mode. Non-trivial: >=5 keys, arrival orders differ, a tie class present",
-	Budget: pbt.Budget{Quick: 480, Thorough: 4800},
+	Rule:   "`rare histo --snapshot --sort S` and `rare table --snapshot --sort-rows S --sort-cols S` on 1..3 files holding the sample lines of 2..12 printable-ASCII keys (kinds per mode as in `perm`) in 2..3 arrival orders; displayed rows (and columns) must equal the library order of the same data in every run, and the model of the mode. Non-trivial: >=5 keys, arrival orders differ, a tie class present",
+	Budget: pbt.Budget{Quick: 400, Thorough: 3200},
 	Gen:    genCli, Check: checkCli, Classify: classifyCli,
-	Watchdog: 60 * time.Second,
+	Watchdog: 120 * time.Second, NoWatchdogViolation: true,
 }
 
 func TestCli(t *testing.T) { pbt.Run(t, cliSpec) }
@@ -1075,4 +1091,3 @@ func TestKnownFindings(t *testing.T) {
 	pbt.ReportKnown(prop, kfContextual, witnessContextual)
 	pbt.ReportKnown(prop, kfDate, witnessDate)
 }
-
